@@ -129,6 +129,7 @@ class Verifier:
         try:
             for ci_idx, params in enumerate(cases):
                 ex.side_obligations = []
+                self._case_posts = c.case_posts.get(ci_idx)
                 st = State()
                 fid = ex.new_oid()
                 st.frames[fid] = Frame(fid, mod, None, f"{target}:<harness>")
@@ -228,6 +229,8 @@ class Verifier:
                 self.check_clause(c, s, cond_fn, values, res, ob(f"raises-{k}"), negate=True,
                                   what=f"returns normally although the contract demands {k}")
         for p in c.posts:
+            if getattr(self, "_case_posts", None) is not None and p not in self._case_posts:
+                continue
             if self._only is None or p in self._only:
                 self.check_clause(c, s, p, values, res, ob(p), negate=False, what=f"postcondition {p} fails")
 
